@@ -3,6 +3,7 @@ package props
 import (
 	"math"
 	"math/big"
+	"runtime/debug"
 	"sort"
 	"strings"
 	"testing"
@@ -185,6 +186,9 @@ func accOfTrunc(v model.Val, isInt bool) model.Acc {
 }
 
 func checkC14(c C14Case, o *h.Obs) *h.Fail {
+	if c.Op == "grid:giant-mantissa" {
+		return c14GiantMantissaAccuracy()
+	}
 	o.Label(c.Op)
 	if c.Op == "out" {
 		return checkC14Out(c, o)
@@ -304,7 +308,7 @@ func checkC14Out(c C14Case, o *h.Obs) *h.Fail {
 	x := c.X.Build()
 	v := c.X.Val()
 	before := h.Read(x)
-	moderate := v.Form != model.Finite || v.Exp <= 1<<20 && v.Exp >= -5000 // (generated exponents stay within 5000; the enumerated sizes go to 630000 digits)
+	moderate := v.Form != model.Finite || v.Exp <= 1<<20+64 && v.Exp >= -(1<<20+64) // (generated exponents stay within 5000; the enumerated sizes go to 630000 digits)
 	// IsInt / MinPrec
 	wantIsInt := v.Form == model.Zero || v.Form == model.Finite && int64(len(v.Digits)) <= v.Exp
 	if g := x.IsInt(); g != wantIsInt {
@@ -515,7 +519,63 @@ func TestC14Grid(t *testing.T) {
 		run(C14Case{Op: "setint", I: v.String(), P: 0, M: 0})
 		run(C14Case{Op: "setint", I: v.String(), P: 20, M: 2})
 	}
+	// integers and fractions whose power of ten is exactly 10^(2^k) (and one off), k = 10 .. 20: Int of 7 x 10^(2^k),
+	// Rat of 7 x 10^-(2^k). (Powers built by repeated squaring have their fenceposts there.)
+	kmax := 15
+	if h.Thorough() {
+		kmax = 20
+	}
+	for k := 10; k <= kmax+1; k++ {
+		offs := []int64{-1, 0, 1}
+		kk := k
+		if k == kmax+1 {
+			// the largest one exactly, on every run (two seconds per call)
+			kk, offs = 20, []int64{0}
+			if kmax == 20 {
+				break
+			}
+		}
+		for _, off := range offs {
+			e := int64(1)<<uint(kk) + off
+			// the power of ten the conversion multiplies or divides by is 10^(exp - 19*words): make THAT 10^(+-e)
+			run(C14Case{Op: "out", X: h.Spec{F: "f", D: "7", E: e + 19, P: 1, Neg: k%2 == 1}})
+			run(C14Case{Op: "out", X: h.Spec{F: "f", D: "73", E: -e + 19, P: 2, Neg: k%2 == 0}})
+		}
+	}
 	h.AddExtra("C14", "size_grid_cases_enumerated", n)
+	if f := c14GiantMantissaAccuracy(); f != nil {
+		h.ReportGridFail(t, "C14", f, []byte(`{"op":"grid:giant-mantissa"}`))
+	}
+}
+
+// c14GiantMantissaAccuracy: Int64 and Uint64 of values whose mantissa has more than 2^31 digits (113 million words,
+// untouched zero pages but for the ends) and a non-zero digit far below the point: the value is the integer part,
+// the accuracy Below / Above (a digit count held in 32 signed bits turns negative here).
+func c14GiantMantissaAccuracy() *h.Fail {
+	debug.FreeOSMemory()
+	defer debug.FreeOSMemory()
+	const L = 113025460
+	mant := make([]decimal.Word, L)
+	mant[L-1], mant[0] = 1234500000000000000, 3 // 12345.000...03 with exponent 5
+	x := new(decimal.Decimal).SetPrec(model.MaxPrec)
+	x.SetBitsExp(mant, 5)
+	if x.MinPrec() != 19*L || x.IsInt() {
+		return h.Failf("giant", "a %d-word mantissa: MinPrec %d, IsInt %v", L, x.MinPrec(), x.IsInt())
+	}
+	if v, acc := x.Int64(); v != 12345 || acc != decimal.Below {
+		return h.Failf("giant", "Int64 of 12345.00..03 (%d words) = (%d, %v), want (12345, Below)", L, v, acc)
+	}
+	if v, acc := x.Uint64(); v != 12345 || acc != decimal.Below {
+		return h.Failf("giant", "Uint64 of 12345.00..03 (%d words) = (%d, %v), want (12345, Below)", L, v, acc)
+	}
+	x.Neg(x)
+	if v, acc := x.Int64(); v != -12345 || acc != decimal.Above {
+		return h.Failf("giant", "Int64 of -12345.00..03 (%d words) = (%d, %v), want (-12345, Above)", L, v, acc)
+	}
+	if v, acc := x.Uint64(); v != 0 || acc != decimal.Above {
+		return h.Failf("giant", "Uint64 of -12345.00..03 (%d words) = (%d, %v), want (0, Above)", L, v, acc)
+	}
+	return nil
 }
 
 var propC14 = &h.Prop[C14Case]{ID: "C14", Rule: ruleC14, Gen: genC14, Check: checkC14, Matchers: map[string]func(C14Case) bool{}}
